@@ -16,7 +16,7 @@ ECOS = ["alpine", "alpm", "apache", "cargo", "composer", "conan", "cran", "debia
 def model(run):
     base = "CONSTANT Procs = {1, 2, 3}\nCONSTANT MaxCalls = 2\n"
     vlib.tlc(run, "MC_Conc", base + "CONSTANT Lazy = FALSE\nSPECIFICATION CSpec\nINVARIANT ResultsIndependent\nPROPERTY HeapNeverChanges\nCHECK_DEADLOCK FALSE\n",
-             name="conc.pure", workers=8, timeout=900)
+             name="conc.pure", workers=8, timeout=900, coverage=True, unfired_ok=("Mid2",))
     try:
         vlib.tlc(run, "MC_Conc", base + "CONSTANT Lazy = TRUE\nSPECIFICATION CSpec\nINVARIANT ResultsIndependent\nCHECK_DEADLOCK FALSE\n",
                  name="conc.lazy", workers=1, timeout=300, count=False)
